@@ -251,8 +251,8 @@ func (r *Relay) Barrier() error {
 		}
 		select {
 		case <-ch:
-		case <-time.After(5 * time.Second):
-			return fmt.Errorf("relay marker was not read within 5s")
+		case <-time.After(20 * time.Second):
+			return fmt.Errorf("relay marker was not read within 20s")
 		}
 	}
 	return nil
